@@ -195,6 +195,7 @@ class C11(Check):
             c = proc.default_cfg(r, counts=[2, 0, 0, 0, 1])
             msin = c["imsi"][len(c["mcc"]) + len(c["mnc"]):][:15 - len(mcc) - len(mnc)]
             c.update(mcc=mcc, mnc=mnc, imsi=mcc + mnc + msin)
+            c["other_plmn_first"] = i % 2 == 0        # the AMF also serves another PLMN and lists it first
             cfgs.append(c)
         proc.registration_runs(self, binary, cfgs, "SUCI and PLMN identities on the wire")
 
